@@ -1245,6 +1245,35 @@ fn c13_after_near_copy(ctx: &mut Ctx, rng: &mut Rng, f: &[u8]) {
     }
 }
 
+/// the same frame parsed and decoded twice in a row (and once more after an unrelated frame):
+/// identical results every time -- decoding must not remember anything
+fn c13_decode_twice(ctx: &mut Ctx, rng: &mut Rng, f: &[u8]) {
+    ctx.eval();
+    let other = crc::frame(&rng.bytes(20));
+    let r = guard(|| {
+        let a = MessageFrame::new(f).ok().map(|x| x.get_message());
+        let b = MessageFrame::new(f).ok().map(|x| x.get_message());
+        let _ = MessageFrame::new(&other).ok().map(|x| x.get_message());
+        let c = MessageFrame::new(f).ok().map(|x| x.get_message());
+        (a, b, c)
+    });
+    ctx.count("frames_decoded_repeatedly");
+    match r {
+        Ok((a, b, c)) => {
+            if a != b || a != c {
+                let cls = |m: &Option<Message>| m.as_ref().map(msg_class).unwrap_or_else(|| "rejected".into());
+                ctx.violation(
+                    "C13.decode_is_a_function_of_the_frame".into(),
+                    "C13.decode_is_a_function_of_the_frame",
+                    format!("the same frame decodes to {} / {} / {} on three consecutive attempts", cls(&a), cls(&b), cls(&c)),
+                    json!({"kind":"frame_suffix","hex":hex(f),"suffix":""}),
+                );
+            }
+        }
+        Err(_) => ctx.count("panics_left_to_C02"),
+    }
+}
+
 fn suffix_set(rng: &mut Rng) -> Vec<Vec<u8>> {
     let mut v: Vec<Vec<u8>> = Vec::new();
     v.push(vec![rng.u8()]);
@@ -1304,6 +1333,7 @@ pub fn c13(p: &Params) -> Outcome {
                 }
                 c13_check(ctx, &f, &sfx, "typed_frames");
                 c13_after_near_copy(ctx, &mut rng, &f);
+                c13_decode_twice(ctx, &mut rng, &f);
             }
         }
     });
